@@ -317,7 +317,7 @@ def run(ctx):
         'is_identifier is abstracted (harness only generates names on which the abstraction agrees)',
         'the lock around __new__ is not modelled here (see C15)',
     ]
-    regenerate(ctx)
+    ctx.safe_regenerate(regenerate)
     try:
         ctx.prove(PROP)
         proof_ok = True
@@ -377,7 +377,7 @@ def run(ctx):
 def replay(ctx, path):
     with open(path) as f:
         body = json.load(f)
-    regenerate(ctx)
+    ctx.safe_regenerate(regenerate)
     case = body['record'].get('case')
     if case:
         o = run_impl('c17_impl.py', {'cases': [case]})
